@@ -2,7 +2,8 @@
 
 History observed per generated package: process 1 imports the client modules
 from source (byte-code writing enabled, own scratch PYTHONPYCACHEPREFIX),
-processes 2 and 3 import them again.  HY_MESSAGE_WHEN_COMPILING=1 makes hy say
+process 2 (and, for a third of the quick cases and all thorough ones, process 3)
+imports them again.  HY_MESSAGE_WHEN_COMPILING=1 makes hy say
 which files it compiled, so the byte-code path is *positively detected*:
 process 1 must report every client file, processes 2/3 none of the package's
 files — otherwise the case is skipped (inconclusive), never "held".
@@ -33,15 +34,17 @@ RULE = ("generated packages: one macro module (3-7 macros; private, dashed, Unic
         "_hy_export_macros via export/setv; reader macros) and two client modules that `require` it in the "
         "documented shapes {bare, :as, [names/:as], *, :macros, :readers, relative, pkg [submodule], several entries "
         "in one form, nested in do/when, inside a function (require_vals path)}, client B also requiring from client A; "
-        "imported from source then twice from the byte-code cache (positively detected via HY_MESSAGE_WHEN_COMPILING). "
+        "imported from source then once or twice more from the byte-code cache (positively detected via HY_MESSAGE_WHEN_COMPILING). "
+        "Three packages share one trio of child processes (each package is one evaluation). "
         "Non-trivial = package whose clients use >= 2 distinct require shapes and whose byte-code path was detected; "
         "distinct by rendered files. Plus extension-clause cases (file names x {hy FILE, python -m hy FILE, "
         "runhy.run_path, import}).")
 FLOOR = {"quick": 150, "thorough": 150}
-BUDGET = {"quick": 36, "thorough": 480}
+BUDGET = {"quick": 45, "thorough": 480}
 CASE_TIMEOUT = 150
 NEEDS_EVENTS = True      # events = positive byte-code-path detections + extension-clause observations
-ANCHORS = ["hy.macros:require"]
+ANCHORS = []   # the mechanisms run in child processes; in-process line probes cannot see them.
+               # Reach is shown instead by what the children report (Compiling <path>, sys.argv, STAGE log).
 ASSUMPTIONS = [
     "CPython's own .pyc machinery (marshal, mtime/size validation) behaves as documented",
     "HY_MESSAGE_WHEN_COMPILING=1 reports exactly the files compiled from source (DESIGN §2 spike)",
@@ -64,6 +67,7 @@ PREFIXES = ["P", "M-x", "π", "Q2", "long-prefix-name", "pre_fix"]
 ALIASES = ["al", "my-alias", "Al2", "zz?", "δelta", "ali_as", "set-it!"]
 READER_NAMES = ["spiff", "r-2", "Rdr"]
 
+BATCH = 3        # packages per trio of child processes (each package is one evaluation)
 SHAPES = ["bare", "as", "names", "star", "mkw", "readers", "mkw+readers", "rel", "sub", "multi"]
 
 
@@ -195,7 +199,13 @@ def emit_uses(rng, cl, aliases, limit):
         cl.values[f"v{cl.nv}"] = [aliases[a], n]
 
 
-RISKY = {"rel": "local-require-relative", "sub": "local-require-submodule"}
+# Shapes hy is known to mishandle inside a function.  `(require pkg [submodule])` compiles but the
+# emitted run-time require_vals call does not mirror it (finding, generated rarely, with its own
+# normaliser).  Carve-out: a *relative* require inside a function is never generated — hy cannot
+# compile it at all (no package is passed to importlib on the local-macro path), and a module that
+# does not compile is outside this property.
+RISKY = {"sub": "local-require-submodule"}
+NEVER_LOCAL = ("readers", "mkw+readers", "rel")
 
 
 def gen_client(rng, cl, sources, in_pkg, want_shapes, state):
@@ -216,7 +226,7 @@ def gen_client(rng, cl, sources, in_pkg, want_shapes, state):
     rng.shuffle(shapes)
     for shape in shapes:
         src = rng.choice(sources)
-        local = rng.random() < 0.3 and shape not in ("readers", "mkw+readers")
+        local = rng.random() < 0.3 and shape not in NEVER_LOCAL
         if local and shape in RISKY and (state.get("risky") or rng.random() > 0.12):
             local = False
         if shape == "multi":
@@ -289,8 +299,10 @@ def gen_client(rng, cl, sources, in_pkg, want_shapes, state):
     emit_uses(rng, cl, cl.aliases, 4)
 
 
-def gen_pkg(rng, tier):
-    pkg = rng.choice(PKG_NAMES) if rng.random() < 0.8 else None
+def gen_pkg(rng, tier, slot=0):
+    # packages of one batch share the child processes, so their top-level names differ by slot;
+    # only slot 0 may be a flat (package-less) layout
+    pkg = PKG_NAMES[slot] if (slot or rng.random() < 0.75) else None
     leaf = rng.choice(MODULE_NAMES)
     mac_hy = f"{pkg}.{leaf}" if pkg else leaf
     nm = rng.randint(3, 7)
@@ -359,6 +371,7 @@ def gen_pkg(rng, tier):
         leafname = risky["file"].split(".")[-1]
         risky["file"] = pdir + _mangle(leafname) + ".hy"
     return {
+        "nproc": 3 if (tier == "thorough" or rng.random() < 0.34) else 2,
         "risky": risky,
         "kind": "pkg", "files": files,
         "imports": [_pyname(m) for m in order],
@@ -390,19 +403,25 @@ def gen_ext(rng, tier):
 
 
 def cases(seed, tier, shard, nshards):
-    i = 0
+    i = k = 0
     while True:
-        rng = rng_for(seed, ID, shard, i)
-        i += 1
-        if i % 7 == 3:
+        k += 1
+        if k % 5 == 3:
+            rng = rng_for(seed, ID, shard, i)
+            i += 1
             yield gen_ext(rng, tier)
-        else:
-            yield gen_pkg(rng, tier)
+            continue
+        pkgs = []
+        for slot in range(BATCH):
+            rng = rng_for(seed, ID, shard, i)
+            i += 1
+            pkgs.append(gen_pkg(rng, tier, slot))
+        yield {"kind": "batch", "pkgs": pkgs, "nproc": pkgs[0]["nproc"]}
 
 
 def case_key(case):
-    if case["kind"] == "pkg":
-        return case["files"]
+    if case["kind"] == "batch":
+        return [p["files"] for p in case["pkgs"]]
     return case
 
 
@@ -411,9 +430,8 @@ def case_key(case):
 
 DRIVER = r'''
 import json, sys, os
-spec = json.load(open(sys.argv[1], encoding="utf-8"))
-sys.path.insert(0, spec["root"])
-out = {"ok": True, "mods": {}}
+specs = json.load(open(sys.argv[1], encoding="utf-8"))
+outs = []
 
 def tok(v, depth=0):
     import types
@@ -451,9 +469,12 @@ def plain(v):
         return v
     return "<" + type(v).__name__ + ">"
 
-try:
-    import importlib
-    import hy
+import importlib
+import hy
+
+def one(spec):
+    out = {"ok": True, "mods": {}}
+    sys.path.insert(0, spec["root"])
     for name in spec["imports"]:
         importlib.import_module(name)
     for name in spec["clients"]:
@@ -480,11 +501,16 @@ try:
             except BaseException as e:
                 d["probes"][alias].append("error " + type(e).__name__)
         out["mods"][name] = d
-except BaseException as e:
-    import traceback
-    out = {"ok": False, "error": [type(e).__name__, str(e)[:400]],
-           "tb": traceback.format_exc()[-1200:]}
-sys.stdout.write("@@DUMP@@" + json.dumps(out) + "\n")
+    return out
+
+for spec in specs:
+    try:
+        outs.append(one(spec))
+    except BaseException as e:
+        import traceback
+        outs.append({"ok": False, "error": [type(e).__name__, str(e)[:400]],
+                     "tb": traceback.format_exc()[-1200:]})
+sys.stdout.write("@@DUMP@@" + json.dumps(outs) + "\n")
 '''
 
 EXT_DRIVER = r'''
@@ -591,32 +617,44 @@ def check_absolute(case, dump):
     return None
 
 
-def observe(case, files, nproc):
-    """Write the package, import it in `nproc` fresh processes; returns
-    (verdict, why, events): verdict True / False / None (inconclusive)."""
+def observe(pkgs, files_list, nproc):
+    """Write the packages (each under its own root), import them all in `nproc` fresh
+    processes; returns one (verdict, why, events) per package: verdict True / False /
+    None (inconclusive)."""
     with CaseDir("c15") as cd:
-        root = os.path.join(cd.path, "src")
-        for rel, text in files.items():
-            cd.write(os.path.join("src", rel), text)
+        roots, specs = [], []
+        for j, (case, files) in enumerate(zip(pkgs, files_list)):
+            root = os.path.join(cd.path, f"src{j}")
+            roots.append(root)
+            for rel, text in files.items():
+                cd.write(os.path.join(f"src{j}", rel), text)
+            specs.append({"root": root, "imports": case["imports"], "clients": case["clients"],
+                          "probes": {m: sorted(e["probes"]) for m, e in case["expect"].items()}})
         drv = cd.write("_drv.py", DRIVER)
-        spec = cd.write("_spec.json", json.dumps({
-            "root": root, "imports": case["imports"], "clients": case["clients"],
-            "probes": {m: sorted(e["probes"]) for m, e in case["expect"].items()}}))
+        spec = cd.write("_spec.json", json.dumps(specs))
         env = cd.env()
         runs = []
         for k in range(nproc):
-            r = cd.run([python(), drv, spec], env=env, timeout=45)
+            r = cd.run([python(), drv, spec], env=env, timeout=60)
             if r["rc"] is None:
-                return None, "inconclusive:child-timeout", 0
+                return [(None, "inconclusive:child-timeout", 0)] * len(pkgs)
             runs.append(r)
     dumps = [parse_dump(r["out"]) for r in runs]
-    if any(d is None for d in dumps):
-        k = [d is None for d in dumps].index(True)
+    if any(d is None or len(d) != len(pkgs) for d in dumps):
+        k = [d is None or len(d) != len(pkgs) for d in dumps].index(True)
         # the driver catches everything; no dump means the interpreter died
-        return False, (f"process {k + 1} produced no dump: rc={runs[k]['rc']} "
-                       f"stderr={runs[k]['err'][-400:]}"), 0
-    client_paths = [os.path.join(root, f) for f in case["client_files"]]
+        return [(False, (f"process {k + 1} produced no dump: rc={runs[k]['rc']} "
+                         f"stderr={runs[k]['err'][-400:]}"), 0)] * len(pkgs)
     comp = [set(compiled_paths(r["err"])) for r in runs]
+    out = []
+    for j, case in enumerate(pkgs):
+        out.append(judge_pkg(case, roots[j], [d[j] for d in dumps], comp))
+    return out
+
+
+def judge_pkg(case, root, dumps, comp):
+    nproc = len(dumps)
+    client_paths = [os.path.join(root, f) for f in case["client_files"]]
     mine = lambda s: {p for p in s if p.startswith(root + os.sep)}
     if not dumps[0]["ok"]:
         later = dumps[1] if nproc > 1 else None
@@ -639,31 +677,47 @@ def observe(case, files, nproc):
     return True, None, 1
 
 
-def run_pkg(case):
-    classes = ["pkg"] + ["shape:" + s for s in case["shapes"]]
-    res = {"ok": True, "nontrivial": False, "classes": classes, "events": 0,
-           "sample": {"files": case["files"], "imports": case["imports"]}}
-    ok, why, ev = observe(case, case["files"], 3)
-    res["events"] = ev
-    if ok is None:
-        res.update(ok=None, classes=classes + [why], why=why)
+def run_batch(batch):
+    pkgs = batch["pkgs"]
+    res = {"ok": True, "nontrivial": False, "classes": [], "events": 0, "n": 0, "nt_keys": [],
+           "sample": {"files": pkgs[0]["files"], "imports": pkgs[0]["imports"]}}
+    verdicts = observe(pkgs, [p["files"] for p in pkgs], batch.get("nproc", 3))
+    bad = []
+    for case, (ok, why, ev) in zip(pkgs, verdicts):
+        classes = ["pkg"] + ["shape:" + s for s in case["shapes"]]
+        res["events"] += ev
+        if ok is None:
+            res["classes"] += classes + [why]
+            continue
+        res["n"] += 1
+        if ev:
+            classes.append("bytecode-path-detected")
+            if len([s for s in case["shapes"] if s not in ("in-do", "in-when", "local")]) >= 2:
+                res["nt_keys"].append(case["files"])
+        if ok is False:
+            finding = None
+            risky = case.get("risky")
+            if risky and risky["old"] in case["files"][risky["file"]]:
+                # attribution: the package has the feature; does the violation disappear when
+                # only that feature is normalised away (same require spelled absolutely)?
+                files = dict(case["files"])
+                files[risky["file"]] = files[risky["file"]].replace(risky["old"], risky["new"])
+                (ok2, why2, _), = observe([case], [files], 2)
+                if ok2 is True:
+                    finding = risky["key"]
+                    classes.append("finding:" + finding)
+            bad.append((why, finding))
+        res["classes"] += classes
+    if res["n"] == 0:
+        res["ok"] = None
         return res
-    if ev:
-        res["classes"] = classes + ["bytecode-path-detected"]
-    res["nontrivial"] = bool(ev) and len(
-        [s for s in case["shapes"] if s not in ("in-do", "in-when", "local")]) >= 2
-    if ok is False:
-        res.update(ok=False, why=why)
-        risky = case.get("risky")
-        if risky and risky["old"] in case["files"][risky["file"]]:
-            # attribution: the case has the feature; does the violation disappear when only
-            # that feature is normalised away (same require spelled absolutely)?
-            files = dict(case["files"])
-            files[risky["file"]] = files[risky["file"]].replace(risky["old"], risky["new"])
-            ok2, why2, _ = observe(case, files, 2)
-            if ok2 is True:
-                res["finding"] = risky["key"]
-                res["classes"] = res["classes"] + ["finding:" + risky["key"]]
+    res["nontrivial"] = bool(res["nt_keys"])
+    if bad:
+        # an unattributed violation takes precedence over an attributed one
+        bad.sort(key=lambda x: x[1] is not None)
+        res.update(ok=False, why=bad[0][0])
+        if bad[0][1]:
+            res["finding"] = bad[0][1]
     return res
 
 
@@ -746,8 +800,10 @@ def run_ext(case):
 
 
 def run_case(case):
+    if case["kind"] == "batch":
+        return run_batch(case)
     if case["kind"] == "pkg":
-        return run_pkg(case)
+        return run_batch({"pkgs": [case], "nproc": case.get("nproc", 3)})
     return run_ext(case)
 
 
